@@ -422,7 +422,7 @@ class SymNode(metaclass=NodeMeta):
                 c.assume(self.den == z3.If(kids[0].den, kids[1].den, kids[2].den))
             elif op == "Concat":
                 comps = []
-                for n in range(2, min(wd.nested_arity, w) + 1):
+                for n in range(2, min(wd.c.opts.get("concat_arity", wd.nested_arity), w) + 1):
                     comps += [cc for cc in _compositions(w, n)]
                 comps = wd.c.opts.get("concat_filter", lambda w, cs: cs)(w, comps)
                 i = c.choose([True] * len(comps), f"concat{self.uid}")
